@@ -31,8 +31,8 @@ print(json.dumps({"stable_pass_expected": len(want), "passed_of_those": len(want
 PY
 # 2. demonstration with and without the change
 git apply demo.diff || { echo '{"error":"demo does not apply"}'; exit 2; }
-cargo nextest run -p gneiss-mqtt $EXTRA --offline --no-fail-fast $FILTER > $WT/demo_with.log 2>&1; RC_WITH=$?
+cargo nextest run -p ${PKG:-gneiss-mqtt} $EXTRA --offline --no-fail-fast $FILTER > $WT/demo_with.log 2>&1; RC_WITH=$?
 git apply -R patch.diff
-cargo nextest run -p gneiss-mqtt $EXTRA --offline --no-fail-fast $FILTER > $WT/demo_without.log 2>&1; RC_WITHOUT=$?
+cargo nextest run -p ${PKG:-gneiss-mqtt} $EXTRA --offline --no-fail-fast $FILTER > $WT/demo_without.log 2>&1; RC_WITHOUT=$?
 W=$(grep -E "tests run:" $WT/demo_with.log | tail -1 | sed 's/^ *//'); WO=$(grep -E "tests run:" $WT/demo_without.log | tail -1 | sed 's/^ *//')
 echo "{\"baseline\": $(cat $WT/baseline.json), \"demo_with_change_rc\": $RC_WITH, \"demo_with_change\": \"$W\", \"demo_without_change_rc\": $RC_WITHOUT, \"demo_without_change\": \"$WO\"}"
